@@ -1367,6 +1367,9 @@ def derive_rule(ctx):
     inner_ok = []
     for root, chain, clo in gens:
         cb = fa.body(clo) if clo else None
+        if cb is not None:
+            from lib import inline
+            cb = inline.inlined(fa, cb)         # a helper shared by the generators (e.g. the field-binding list) folded in
         if cb is None:
             ctx.ob("R20d", "serialize_enum:closure", False, "generator closure %s not found" % clo, b.where)
             continue
